@@ -4,6 +4,7 @@
 //! writes an ndjson trace that a `*_Trace.tla` module validates; no
 //! interpretation of observed state happens here.
 mod conc;
+mod prove;
 mod cuf;
 mod session;
 mod syntax;
@@ -25,6 +26,7 @@ fn main() {
         "conc" => conc::main(rest),
         "cuf" => cuf::main(rest),
         "syntax" => syntax::main(rest),
+        "prove" => prove::main(rest),
         other => Err(format!("unknown driver {other}")),
     };
     if let Err(e) = r {
